@@ -43,6 +43,13 @@ def property_hook(mod, cls, depth=2):
     return hook
 
 
+def is_shallow_copy_of(term: P, self_name="self") -> bool:
+    a = term.as_atom()
+    if a and a[0] == "obj":
+        a = a[3].as_atom()
+    return bool(a and a[0] == "call" and call_name(a) in ("copy.copy",) and len(a[2]) == 1 and a[2][0].key() == self_name)
+
+
 def alias_path(term: P, self_name="self"):
     """If term may alias (a part of) an attribute of self return that attribute's name, else None."""
     a = term.as_atom()
@@ -50,8 +57,8 @@ def alias_path(term: P, self_name="self"):
         return None
     tag = a[0]
     if tag == "attr":
-        if a[1].key() == self_name:
-            return a[2]
+        if a[1].key() == self_name or is_shallow_copy_of(a[1], self_name):
+            return a[2]                 # copy.copy(self).x is the very object self.x
         return alias_path(a[1], self_name)
     if tag == "sub":
         fancy = False
@@ -81,8 +88,17 @@ def alias_path(term: P, self_name="self"):
         if cn and cn.startswith(".") and cn[1:] in ALIAS_METHODS:
             c = a[1].as_atom()
             return alias_path(c[1], self_name)
+        # a method of a typed attribute (self.space_group.m(x)) whose result may be (a view of) one of its arguments
+        for hook in _RET_ALIAS:
+            for t in hook(a) or ():
+                r = alias_path(t, self_name)
+                if r is not None:
+                    return r
         return None
     return None
+
+
+_RET_ALIAS: list = []
 
 
 def _is_container(term: P) -> bool:
@@ -107,6 +123,39 @@ class Effects:
         self._memo = {}
         self._stack = set()
         self._fn_memo = {}
+        self._ret_memo = {}
+        _RET_ALIAS[:] = [self._returned_args]
+
+    def _returned_args(self, call_atom):
+        """Arguments of ``self.<typed attr>.m(args)`` that the method's result may alias (it returns the argument, or asarray of it...)."""
+        c = call_atom[1].as_atom() if isinstance(call_atom[1], P) else None
+        if not (c and c[0] == "attr"):
+            return ()
+        recv = c[1].as_atom()
+        if not (recv and recv[0] == "attr" and recv[1].key() == "self"):
+            return ()
+        target = None
+        for types in self.attr_types.values():
+            if recv[2] in types:
+                target = types[recv[2]]
+        if target is None:
+            return ()
+        trel, tcls = target
+        key = (trel, tcls, c[2])
+        if key not in self._ret_memo:
+            idx = set()
+            mod = self.repo.module(trel)
+            fn = mod.funcs.get(f"{tcls}.{c[2]}")
+            if fn is not None:
+                ev = Ev(fn, mod.ctx).run()
+                params = list(ev.param_names)
+                for r in ev.returns:
+                    if r.value is None:
+                        continue
+                    for nm in alias_roots(r.value, set(params[1:])):
+                        idx.add(params.index(nm) - 1)
+            self._ret_memo[key] = idx
+        return tuple(call_atom[2][i] for i in self._ret_memo[key] if i < len(call_atom[2]))
 
     def ev_of(self, rel, cls, meth):
         mod = self.repo.module(rel)
@@ -144,8 +193,12 @@ class Effects:
                 if not t:
                     continue
                 if t[0] == "attr" and t[1].key() == "self":
-                    out.append(Write(t[2], "rebinds self." + t[2], e.node))
+                    out.append(Write(t[2], (f"in-place {e.op or ''}= on self." if e.kind == "aug" else "rebinds self.") + t[2], e.node))
                     continue
+                if t[0] == "attr" and is_shallow_copy_of(t[1]):
+                    if e.kind == "aug":     # copy.copy(self).x += v works in place on the array shared with self
+                        out.append(Write(t[2], f"in-place {e.op or ''} on {e.target} (shared with self.{t[2]})", e.node))
+                    continue                # a plain store rebinds the copy's attribute only
                 base = t[1] if t[0] in ("attr", "sub") else None
                 if base is not None:
                     root = alias_path(base)
@@ -164,6 +217,12 @@ class Effects:
                     if recv.key() == "self":
                         for w in self.method_writes(rel, cls, m):
                             out.append(Write(w.attr, w.how, e.node, via=f"self.{m}()"))
+                        continue
+                    if is_shallow_copy_of(recv):
+                        # a method run on a shallow copy works on the arrays it shares with self
+                        for w in self.method_writes(rel, cls, m):
+                            if not w.how.startswith("rebinds"):
+                                out.append(Write(w.attr, w.how + " (on a shallow copy sharing its arrays with self)", e.node, via=f"copy.copy(self).{m}()"))
                         continue
                     root = alias_path(recv)
                     if root is not None:
